@@ -197,6 +197,23 @@ Proof.
   - intros H. exists s'. split; [apply lifecycle_allowed; auto|apply pstate_eqb_eq; auto].
 Qed.
 
+(** an "open" report with a non-zero remaining quantity -- in particular an OVER-FILLED one, whose
+    remaining quantity is negative -- never untracks: by the table ... *)
+Lemma lifecycle_open_left_tracked : forall s q m s',
+  lifecycle s (ASnap q (SA (Open m))) s' -> rem q m <> 0 -> s' <> None.
+Proof. intros s q m s' H Hr. inversion H; subst; congruence. Qed.
+
+(** ... hence by the code *)
+Lemma open_report_keeps_tracked : forall (s : orders) sn m,
+  o_state sn = SA (Open m) -> rem (o_qty sn) m <> 0 ->
+  step s (Snap sn) (k_cid (o_key sn)) <> None.
+Proof.
+  intros s sn m Hs Hr Hn.
+  pose proof (step_refines_lifecycle s (Snap sn)) as H.
+  unfold cid_of in H. simpl in H. simpl in Hn. rewrite Hs, Hn in H. simpl in H.
+  exact (lifecycle_open_left_tracked _ _ _ _ H Hr eq_refl).
+Qed.
+
 (* ---- the lifecycle itself never lets the held exchange timestamp go back --------------------- *)
 
 Lemma lifecycle_monotone : forall s o s' t t',
